@@ -152,7 +152,9 @@ CHECKS = {
           'num_cores, reshape, one row per prange iteration, sign of the rotations, flattening, [:size]) are executed symbolically with arrays as index functions '
           'for EVERY number of points (size = q*num_cores + r, q, r, num_cores symbolic, both padding branches): each result has exactly size entries and entry k '
           'is the point kernel\'s value at (xs[k], ys[k]) -- an expression without num_cores or k\'s position, hence independent of thread count, point count and '
-          'order; each iteration writes only the row of its own loop index; cfw/cfwx/cfwy of the w-only module are proved like the main kernels.'),
+          'order; each iteration writes only the row of its own loop index; cfw/cfwx/cfwy of the w-only module are proved like the main kernels.  StiffPanelBay.uvw_skin / '
+          'uvw_stiffener are executed symbolically for 1..3 stiffeners in 8 orders of kinds: each component is evaluated with its own range of the bay\'s amplitude '
+          'vector (the range the matrices use) and its own attributes (1 fixed defect).'),
     design_ref='DESIGN.md section 4 (C11), 10.8',
     note=('real arithmetic; numpy hstack/reshape/ravel/slice on C-contiguous arrays modelled as row-major index maps (assumption), in the Python layer they run '
           'natively on symbolic object arrays (A4); prange(n) is taken to visit every index once (OpenMP scheduling itself is outside the contract; the frame '
